@@ -939,7 +939,8 @@ func (p *Printer) arithmExprRecurse(expr ArithmExpr, compact, spacePlusMinus boo
 		} else {
 			if spacePlusMinus {
 				switch expr.Op {
-				case Plus, Minus:
+				case Plus, Minus, Inc, Dec:
+					// ${a:--x} and ${a:++x} are ${a:-word} and ${a:+word}
 					p.space()
 				}
 			}
